@@ -52,7 +52,7 @@ Has(e, t) == \E cell \in memo : cell.e = e /\ cell.t = t
 \* an evaluation only computes (and records with the current versions) what is not cached yet
 Filled(e, t) == memo \cup {[e |-> p[1], t |-> p[2], seen |-> Cur(p[1])] : p \in {q \in Reach(e, t) : ~Has(q[1], q[2])}}
 
-Log1(rec) == hist' = IF L = 0 THEN hist ELSE Append(hist, rec @@ [defs |-> [c |-> defs'.c, iv |-> defs'.iv, fv |-> defs'.fv, yv |-> defs'.yv, w |-> defs'.w]])
+Log1(rec) == hist' = IF L = 0 THEN hist ELSE Append(hist, rec @@ [defs |-> [c |-> defs'.c, iv |-> defs'.iv, fv |-> defs'.fv, yv |-> defs'.yv, w |-> defs'.w, sv |-> defs'.sv]])
 Bump(e) == [defs.ver EXCEPT ![e] = @ + 1]
 Cleared == IF "NoReset" \in Dev THEN memo ELSE {}
 
@@ -66,6 +66,9 @@ SetInit(v) == /\ "SetInit" \in Ops /\ v # defs.iv
 SetFlow(v) == /\ "SetFlow" \in Ops /\ v # defs.fv
               /\ defs' = [defs EXCEPT !.fv = v, !.ver = Bump("f")] /\ memo' = {}
               /\ Log1([op |-> "SetFlow", v |-> v])
+SetStockEq(v) == /\ "SetStockEq" \in Ops /\ v # defs.sv        \* the stock's equation is replaced: s' = f, or s' = f + f
+                 /\ defs' = [defs EXCEPT !.sv = v, !.ver = Bump("s")] /\ memo' = {}
+                 /\ Log1([op |-> "SetStockEq", v |-> v])
 SetConv(v) == /\ "SetConv" \in Ops /\ v # defs.yv
               /\ defs' = [defs EXCEPT !.yv = v, !.ver = Bump("y")] /\ memo' = {}
               /\ Log1([op |-> "SetConv", v |-> v])
@@ -92,10 +95,10 @@ RunTwice == /\ "RunTwice" \in Ops
             /\ Log1([op |-> "RunTwice"])
 
 Idle2 == slot = 0 /\ pc = <<>> /\ mine = <<>> /\ got = <<>> /\ ndraw = 0 /\ sched = <<>>
-Init1 == /\ defs = [c |-> 1, iv |-> 0, fv |-> 1, yv |-> 1, w |-> 0, ver |-> [e \in Elems |-> 0]] /\ memo = {} /\ hist = <<>> /\ Idle2
+Init1 == /\ defs = [c |-> 1, iv |-> 0, fv |-> 1, yv |-> 1, w |-> 0, sv |-> 1, ver |-> [e \in Elems |-> 0]] /\ memo = {} /\ hist = <<>> /\ Idle2
 Step1 == \/ \E v \in CVals : SetConst(v)
          \/ \E v \in IVals : SetInit(v)
-         \/ \E v \in {1, 2} : SetFlow(v) \/ SetConv(v)
+         \/ \E v \in {1, 2} : SetFlow(v) \/ SetConv(v) \/ SetStockEq(v)
          \/ \E v \in CVals : SetW(v)
          \/ \E e \in Elems, t \in Times, r \in {"api", "elem"} : Eval(e, t, r)
          \/ \E e \in Elems : Plot(e)
